@@ -59,7 +59,15 @@ BigNum == {Big(a, lo) : a \in BigAs, lo \in BOOLEAN}
 DBig == {Bin("/", x, Big(b, FALSE)) : x \in BigNum, b \in BigBs}
         \cup {Bin(o, Bin("/", x, Big(b, FALSE)), y) : o \in {"+", "-"}, x \in {Big(a, TRUE) : a \in BigAs}, b \in {16, 1048576},
                                                       y \in {Lit(1, "d"), Name(1)}}
-AST(d) == DBig \cup (IF d = 1 THEN D1 ELSE IF d = 2 THEN D1 \cup D2 ELSE D1 \cup D2 \cup D3)
+\* isar's second operator call: bitMaskOr(a, b), expanded to ((a) | (b)) - operands with bits in common, disjoint
+\* masks built with shiftLeft, nesting, and a use inside a sum.  There is no "|" in the prophy language: these
+\* expressions have an isar text only.
+OrLeaves == {Lit(1, "d"), Lit(2, "d"), Lit(3, "d"), Lit(6, "d"), Lit(12, "x"), Lit(255, "x"), Name(1), Name(2)}
+DOr == {Bin("|", x, y) : x \in OrLeaves, y \in OrLeaves}
+       \cup {Bin("|", Bin("<<", Lit(1, "d"), sh), y) : sh \in {Lit(1, "d"), Lit(2, "d"), Lit(4, "d")}, y \in OrLeaves}
+       \cup {Bin("|", Bin("|", x, y), z) : x \in {Lit(1, "d"), Lit(6, "d")}, y \in {Lit(3, "d"), Name(2)}, z \in {Lit(12, "x"), Lit(5, "d")}}
+       \cup {Bin("+", Bin("|", x, y), Lit(1, "d")) : x \in {Lit(3, "d"), Name(1)}, y \in {Lit(6, "d"), Lit(5, "d")}}
+AST(d) == DBig \cup DOr \cup (IF d = 1 THEN D1 ELSE IF d = 2 THEN D1 \cup D2 ELSE D1 \cup D2 \cup D3)
 
 Pow2(n) == CASE n = 0 -> 1 [] n = 1 -> 2 [] n = 2 -> 4 [] n = 3 -> 8 [] n = 4 -> 16 [] n = 5 -> 32 [] n = 6 -> 64
 
@@ -84,6 +92,11 @@ BigOK(e) ==
       [] e.op = "*" -> BigOK(e.l[1]) /\ e.r[1].k = "lit" /\ ~BigVal(e.l[1])[2]
       [] OTHER -> FALSE
 
+\* bitwise or of two naturals
+RECURSIVE BitOr(_, _)
+BitOr(a, b) == IF a = 0 THEN b ELSE IF b = 0 THEN a
+               ELSE (IF a % 2 = 1 \/ b % 2 = 1 THEN 1 ELSE 0) + 2 * BitOr(a \div 2, b \div 2)
+
 RECURSIVE Eval(_)
 Eval(e) ==
     CASE e.k = "lit" -> e.v
@@ -98,6 +111,7 @@ Eval(e) ==
       [] e.op = "/" -> Eval(e.l[1]) \div Eval(e.r[1])
       [] e.op = "<<" -> Eval(e.l[1]) * Pow2(Eval(e.r[1]))
       [] e.op = ">>" -> Eval(e.l[1]) \div Pow2(Eval(e.r[1]))     \* floor, also for negatives
+      [] e.op = "|" -> BitOr(Eval(e.l[1]), Eval(e.r[1]))
 
 \* well-formed: the preconditions of "/" and of the shifts hold everywhere,
 \* and every intermediate value stays small
@@ -111,6 +125,7 @@ WellFormed(e) ==
             /\ WellFormed(e.l[1]) /\ WellFormed(e.r[1])
             /\ (e.op = "/" => Eval(e.l[1]) >= 0 /\ Eval(e.r[1]) > 0)
             /\ (e.op \in {"<<", ">>"} => Eval(e.r[1]) \in 0..6)      \* the shifted value may be negative (>> floors)
+            /\ (e.op = "|" => Eval(e.l[1]) >= 0 /\ Eval(e.r[1]) >= 0)
             /\ Eval(e.l[1]) \in -100000..100000 /\ Eval(e.r[1]) \in -100000..100000
 
 (* ---- text ------------------------------------------------------------------ *)
@@ -151,17 +166,23 @@ MinTight(e) == MinSp(e, "")
 
 \* isar spelling: "<<" written as the operator call shiftLeft(a, b) (which the
 \* isar front-end expands to ((a) << (b))), everything else fully parenthesised
-RECURSIVE Isar(_), HasShl(_)
+RECURSIVE Isar(_), HasShl(_), HasOr(_)
 Isar(e) ==
     CASE e.k \in {"lit", "big"} -> LitText(e)
       [] e.k = "name" -> "K" \o ToString(e.v)
       [] e.k = "neg" -> "(-" \o Isar(e.l[1]) \o ")"
       [] e.op = "<<" -> "shiftLeft(" \o Isar(e.l[1]) \o ", " \o Isar(e.r[1]) \o ")"
+      [] e.op = "|" -> "bitMaskOr(" \o Isar(e.l[1]) \o ", " \o Isar(e.r[1]) \o ")"
       [] OTHER -> "(" \o Isar(e.l[1]) \o " " \o e.op \o " " \o Isar(e.r[1]) \o ")"
 HasShl(e) ==
     CASE e.k \in {"lit", "big", "name"} -> FALSE
       [] e.k = "neg" -> HasShl(e.l[1])
       [] OTHER -> e.op = "<<" \/ HasShl(e.l[1]) \/ HasShl(e.r[1])
+
+HasOr(e) ==
+    CASE e.k \in {"lit", "big", "name"} -> FALSE
+      [] e.k = "neg" -> HasOr(e.l[1])
+      [] OTHER -> e.op = "|" \/ HasOr(e.l[1]) \/ HasOr(e.r[1])
 
 NV == <<3, 10>>
 VARIABLE ast
@@ -171,6 +192,9 @@ ESpec == EInit /\ [][UNCHANGED ast]_ast
 \* the value is an integer in the supported range (no overflow in the model)
 ValueSmall == Eval(ast) \in -100000000..100000000
 
-EDump == PrintT("EXPR " \o ToJson([min |-> Min(ast), full |-> Full(ast), value |-> Eval(ast),
-                                    isar |-> IF HasShl(ast) THEN Isar(ast) ELSE "", tight |-> MinTight(ast), names |-> NameVals]))
+\* (an expression with "|" has no prophy-language text: min, full and tight are empty)
+EDump == PrintT("EXPR " \o ToJson([min |-> IF HasOr(ast) THEN "" ELSE Min(ast), full |-> IF HasOr(ast) THEN "" ELSE Full(ast),
+                                    value |-> Eval(ast),
+                                    isar |-> IF HasShl(ast) \/ HasOr(ast) THEN Isar(ast) ELSE "",
+                                    tight |-> IF HasOr(ast) THEN "" ELSE MinTight(ast), names |-> NameVals]))
 =============================================================================
